@@ -109,6 +109,56 @@ pub fn compare_all(rep: &mut Report, runner: &Runner, model: &Model, property: &
     }
 }
 
+/// the corner scenarios of `corner.rs` (shard 0 of the calling job): every scenario in each of its modes, both trailing
+/// settings; the cases are compared with the model by the caller's `compare_all`. After a build, a second build and
+/// a verify of the tree must succeed and change nothing (oracle).
+pub fn run_corners(rep: &mut Report, runner: &mut Runner, property: &str) {
+    for (k, (label, p, modes)) in crate::corner::corner_projects().into_iter().enumerate() {
+        for (j, mode) in modes.into_iter().enumerate() {
+            // both trailing settings are covered across scenarios and modes (each real run costs ~0.2 s of coordinator polling)
+            for trailing in [(k + j) % 2 == 0] {
+                materialize(&p, &runner.dir);
+                let mut cfg = RunCfg::build_all();
+                cfg.mode = mode;
+                cfg.trailing = trailing;
+                cfg.threads = 2;
+                let idx = runner.run_here(&cfg, &p.cmds, vec![format!("corner|{label}|{mode}")], &format!("corner scenario {label} ({mode}, trailing={trailing})"));
+                rep.count("corner-scenarios");
+                if (mode == "build" || mode == "needed") && runner.cases[idx].imp.verdict == "ok" {
+                    let after = runner.cases[idx].imp.after.clone();
+                    let mut vcfg = cfg.clone();
+                    vcfg.mode = "verify";
+                    let v = runner.run_here(&vcfg, &p.cmds, vec![format!("corner|{label}|verify-after-{mode}")], &format!("corner scenario {label}: verify after {mode}"));
+                    if runner.cases[v].imp.verdict != "ok" {
+                        let c = &runner.cases[v];
+                        let what = format!("{property}: corner scenario `{label}`: verify right after a successful {mode} gives `{}`", c.imp.verdict);
+                        rep.violation("oracle", &what, &replay_body(&c.before, &c.cfg, &c.cmds, &format!("# {what}\n")));
+                    }
+                    let b2 = runner.run_here(&cfg, &p.cmds, vec![format!("corner|{label}|{mode}-again")], &format!("corner scenario {label}: {mode} again"));
+                    let c = &runner.cases[b2];
+                    if c.imp.verdict != "ok" || c.imp.after.files != after.files {
+                        let what = format!("{property}: corner scenario `{label}`: a second {mode} gives `{}` and {} the tree", c.imp.verdict, if c.imp.after.files != after.files { "changes" } else { "keeps" });
+                        rep.violation("oracle", &what, &replay_body(&c.before, &c.cfg, &c.cmds, &format!("# {what}\n")));
+                    }
+                }
+            }
+        }
+    }
+}
+
+/// job `corner`: only the corner scenarios, for the property named by `--property`
+pub fn run_corner_job(args: &Args) -> Report {
+    let property = args.property.clone();
+    let mut rep = Report::new(&property, "M5-corner", &args.replay_dir);
+    let model = Model::new(&args.model, &args.work);
+    rep.rule = "the explicit corner scenarios of harness/src/corner.rs (inputs larger than the I/O buffers, multi-byte characters at buffer boundaries, stray carriage returns, empty outputs over stale or missing ones, temp targets rewritten with a prefix, non-ASCII directive prefixes, long multi-byte arguments and tag names), each in its modes, followed by verify and a second run; compared with the Lean model".to_string();
+    let mut runner = Runner::new(args, "corner");
+    run_corners(&mut rep, &mut runner, &property);
+    compare_all(&mut rep, &runner, &model, &property, "C01.pp_refines_spec (machine_eq_spec) on the corner scenarios");
+    runner.cleanup();
+    rep
+}
+
 pub fn run_c01(args: &Args) -> Report {
     let mut rep = Report::new("C01", "M5", &args.replay_dir);
     let model = Model::new(&args.model, &args.work);
@@ -135,6 +185,9 @@ pub fn run_c01(args: &Args) -> Report {
             let (f, content) = p.files.last().unwrap();
             rep.sample(format!("{} => {}: source {} = {:?}", cfg.describe(), c.imp.verdict, f, String::from_utf8_lossy(content)));
         }
+    }
+    if args.shard == 0 {
+        run_corners(&mut rep, &mut runner, "C01");
     }
     compare_all(&mut rep, &runner, &model, "C01", "C01.pp_refines_spec (machine_eq_spec)");
     runner.cleanup();
@@ -252,6 +305,9 @@ pub fn run_c12(args: &Args) -> Report {
         }
     }
     rep.countn("generated_files_scanned", scans);
+    if args.shard == 0 {
+        run_corners(&mut rep, &mut runner, "C12");
+    }
     compare_all(&mut rep, &runner, &model, "C12", "C12.directive_output_one_ending, tag_content_one_ending, temp_content_one_ending, sniff_first_line");
     runner.cleanup();
     rep
@@ -406,6 +462,9 @@ pub fn run_c13(args: &Args) -> Report {
             }
         }
     }
+    if args.shard == 0 {
+        run_corners(&mut rep, &mut runner, "C13");
+    }
     compare_all(&mut rep, &runner, &model, "C13", "C13.trailing_only_final, C13.pass_trailing");
     runner.cleanup();
     rep
@@ -540,6 +599,9 @@ pub fn run_c16(args: &Args) -> Report {
             rep.sample(format!("{kind}: source {:?} => {:?}", String::from_utf8_lossy(&p.files[0].1), got.map(|g| String::from_utf8_lossy(g).to_string())));
         }
     }
+    if args.shard == 0 {
+        run_corners(&mut rep, &mut runner, "C16");
+    }
     compare_all(&mut rep, &runner, &model, "C16", "C16.no_directive_identity, C16.directive_output_inert");
     runner.cleanup();
     rep
@@ -618,6 +680,9 @@ pub fn run_c15e(args: &Args) -> Report {
             }
         }
     }
+    if args.shard == 0 {
+        run_corners(&mut rep, &mut runner, "C15");
+    }
     compare_all(&mut rep, &runner, &model, "C15", "C15.continuation_iff_grammar, detect_iff_grammar (grouping of lines by the line loop)");
     rep.distinct = Some(nontrivial);
     runner.cleanup();
@@ -683,6 +748,9 @@ pub fn run_c14e(args: &Args) -> Report {
                 }
             }
         }
+    }
+    if args.shard == 0 {
+        run_corners(&mut rep, &mut runner, "C14");
     }
     compare_all(&mut rep, &runner, &model, "C14", "C14.capture_next_output, no_capture_without_tag, eof_unused_is_error, inject_spec (tags through the pass)");
     rep.distinct = Some(nontrivial);
